@@ -367,7 +367,22 @@ func verifLemmaProgress(g *Graph, t *Task) {}
 //@        graph.Tasks[k].Body == dec_NewTaskEvent(content(events[index-1].Data)).Body &&
 //@        graph.Tasks[k].State == dec_NewTaskEvent(content(events[index-1].Data)).State &&
 //@        graph.Tasks[k].EpicID == dec_NewTaskEvent(content(events[index-1].Data)).EpicID &&
-//@        graph.Tasks[k].ClaimedBy == "" && (graph.Tasks[k].IsEpic <==> events[index-1].Type == "new_epic")
+//@        graph.Tasks[k].ClaimedBy == "" && (graph.Tasks[k].IsEpic <==> events[index-1].Type == "new_epic") &&
+//@        graph.Tasks[k].UUID == dec_NewTaskEvent(content(events[index-1].Data)).UUID &&
+//@        graph.Tasks[k].CreatedAt == parseVal(dec_NewTaskEvent(content(events[index-1].Data)).CreatedAt) &&
+//@        graph.Tasks[k].UpdatedAt == graph.Tasks[k].CreatedAt && len(graph.Tasks[k].Results) == 0
+//@   step [meta-created] forall k string :: !old(has(graph.Tasks, k)) && has(graph.Tasks, k) ==>
+//@        has(graph.Meta, k) && graph.Meta[k] != nil &&
+//@        graph.Meta[k].CreatedState == dec_NewTaskEvent(content(events[index-1].Data)).State &&
+//@        graph.Meta[k].CreatedTitle == dec_NewTaskEvent(content(events[index-1].Data)).Title &&
+//@        graph.Meta[k].CreatedBody == dec_NewTaskEvent(content(events[index-1].Data)).Body &&
+//@        graph.Meta[k].CreatedEpicID == dec_NewTaskEvent(content(events[index-1].Data)).EpicID && graph.Meta[k].CreatedEpicIDSet &&
+//@        graph.Meta[k].CreatedAt == graph.Tasks[k].CreatedAt
+//@   step [meta-kept] forall k string :: old(has(graph.Tasks, k)) && has(graph.Tasks, k) && old(has(graph.Meta, k)) && old(graph.Meta[k]) != nil ==>
+//@        has(graph.Meta, k) && graph.Meta[k] == old(graph.Meta[k]) &&
+//@        graph.Meta[k].CreatedState == old(graph.Meta[k].CreatedState) && graph.Meta[k].CreatedTitle == old(graph.Meta[k].CreatedTitle) &&
+//@        graph.Meta[k].CreatedBody == old(graph.Meta[k].CreatedBody) && graph.Meta[k].CreatedEpicID == old(graph.Meta[k].CreatedEpicID) &&
+//@        graph.Meta[k].CreatedEpicIDSet == old(graph.Meta[k].CreatedEpicIDSet) && graph.Meta[k].CreatedAt == old(graph.Meta[k].CreatedAt)
 //@   step [results-prepend] forall k string :: old(has(graph.Tasks, k)) && has(graph.Tasks, k) && isResultFor(events[index-1], k) ==>
 //@        len(graph.Tasks[k].Results) == old(len(graph.Tasks[k].Results)) + 1 &&
 //@        resultIs(graph.Tasks[k].Results[0], events[index-1]) &&
